@@ -191,6 +191,30 @@ PROPS = {
                        "its result. Proved instead: termination/no panic, no-nil stacks untouched, values never reordered or invented, the exact success "
                        "class DefragOK (iff), the shape of the result. Not proved: the lifting of the class to nested trees (checked by the correspondence run).",
     },
+    "C20": {
+        "lean": ["Stackage.Props.C20"],
+        "streams": [{"name": "revealtrees", "quick": 4000, "thorough": 80000}],
+        "rule": "random trees, receiver at depth 0 and stacks down to depth 5, every kind (AND/OR/NOT/LIST/BASIC), parenthetical flags on stacks and "
+                "Conditions, chains of 1-4 single-element wrappers (mostly removable ones), Conditions holding stacks / Conditions / leaves (also as only "
+                "element, also read-only / no-nesting / with an error, which makes SetExpression refuse), empty stacks, nil elements, zero-valued "
+                "Stack / Condition elements, []any elements, alias forms a/as/p on stacks and Conditions, forward/negative index options, read-only "
+                "nested stacks, mutex on none / some / all nodes; the real Reveal() runs under a 3 s watchdog (timeout = DEADLOCK) with recover; the "
+                "resulting tree is read back through VerifDump (kinds, option bits, forms, leaves, keyword/operator) and compared with the heap "
+                "model's tree together with the order of mutex acquisitions (VerifHook); distinct = distinct tree text; non-trivial = the receiver "
+                "holds at least two nested Stack/Condition nodes",
+        "explanation": "Observation blocks: L leaves, NF normal form, KP kept (parenthetical / NOT) nodes, D depth did not grow, R reachable(before, after), "
+                       "T resulting tree, X lock order. The S line has the five specification blocks computed by Lean from the INPUT tree alone "
+                       "(leaves/nf/kept before, D 1, R 1); impl-vs-spec compares those five blocks (the implementation's are computed by the harness "
+                       "with Go ports of Spec/Unwrap.lean, used only to tell a specification failure from a model divergence); impl-vs-model compares "
+                       "all seven blocks, and the model's five specification blocks are computed by Lean (leaves, nf, kept, depth, the verified "
+                       "decision procedure `reachable`) on the model's tree, which the T block shows to be the implementation's tree.",
+        "modelled": COMMON_MODELLED + ["object identity of nested stacks as an explicit heap (node id -> slots / condition)",
+                                       "sync.Mutex as a non-re-entrant lock held for the duration of stack.reveal (lock/defer unlock)"],
+        "assumptions": ["no Go stack object occurs at two places of the input tree (generators never alias; the theorems only need acyclicity)",
+                        "elements are never non-nil pointers to the native Stack / Condition types (outside the value universe)",
+                        "nil *Stack / *Condition elements are excluded from the random stream: they make Reveal panic (open defect, see "
+                        "harness/corpus/C20-pending and C20_nilptr_panics); VERIF_C20_NILPTR=1 includes them"],
+    },
 }
 
 
@@ -267,8 +291,33 @@ def _c04(out):
     return re.sub(r" Qskip", " Qok", out) if "Qskip" in out else out
 
 
+def _c20_spec_blocks(s):
+    return " ; ".join(b for b in s.split(" ; ") if not (b == "X" or b == "T" or b.startswith("T ") or b.startswith("X ")))
+
+
+class _C20Spec(str):
+    """The S line of C20: it has no T (tree) and X (lock order) block, because the specification is computed from the input
+    alone. It equals an observation iff the observation's specification blocks (L, NF, KP, D, R) equal it. (Python consults
+    the str subclass first when a plain str is compared with it.)"""
+    def __eq__(self, other):
+        return _c20_spec_blocks(str(other)) == str.__str__(self)
+
+    def __ne__(self, other):
+        return not self.__eq__(other)
+
+    __hash__ = str.__hash__
+
+
+def _c20(out):
+    """impl-vs-spec: the five specification blocks; impl-vs-model: everything (tree and lock order included)."""
+    if out.startswith("L ") and " ; T " not in out and not out.endswith(" ; T"):
+        return _C20Spec(out)
+    return out
+
+
 PROJ = {
     "C04": _c04,
+    "C20": _c20,
     "C01": _keep("ret", "L", "I", "F", "B", "E"),
     "C08": _keep("ret", "L", "I", "F", "B", "E", "c", "a", "u"),
     "C03": _c03,
@@ -311,6 +360,9 @@ def in_scope(pid, stream, tags):
 
 
 def nontrivial(pid, payload):
+    if pid == "C20":
+        toks = payload.split(" ")
+        return sum(1 for t in toks if t in ("K", "C")) >= 3
     ops = payload.rsplit(" | ", 1)[-1].split(" ; ")
     kinds = {o.split(" ")[0] for o in ops if o}
     if pid == "C15":
@@ -373,12 +425,43 @@ def _c19_distribution(cases):
         inc("nesting", "cond+stack" if " C " in lit and lit.count(" K ") > lit.count(" C ") else "cond" if " C " in lit else "stack" if " K " in lit[2:] else "flat")
         nn = top.count("N")
         inc("nil_share", "none" if nn == 0 else "<1/3" if 3 * nn < n else "<2/3" if 3 * nn < 2 * n else ">=2/3")
+def _c20_distribution(cases):
+    d = {"nodes": {}, "depth": {}, "features": {}}
+    def bump(k, key):
+        d[k][key] = d[k].get(key, 0) + 1
+    for c in cases:
+        toks = c.split(" | ", 1)[-1].split(" ")
+        n = sum(1 for t in toks if t in ("K", "C"))
+        b = min(n // 5 * 5, 40)
+        bump("nodes", "%d-%d" % (b, b + 4))
+        depth, cur = 1, 1          # the receiver's own level (its elements are listed without brackets)
+        for t in toks:
+            if t == "[":
+                cur += 1
+                depth = max(depth, cur)
+            elif t == "]":
+                cur -= 1
+        bump("depth", str(depth))
+        text = " ".join(toks)
+        for name, pat in (("mutex", r"mtx=1"), ("alias stack", r"K (a|as|p) "), ("alias condition", r"C (a|as|p) "), ("NOT", r"K \S+ k=3"),
+                          ("condition holding a stack", r"C \S+ \S+ \S+ \S+ K "), ("stack whose only element is a condition", r"\[ C [^\[\]]* \]"),
+                          ("empty stack", r"\[ \]"), ("nil element", r" N "), ("zero Stack/Condition", r" [ZY] "),
+                          ("single-element chain >= 2", r"\[ K \S+ \S+ \[ K \S+ \S+ \[ K "), ("forward index option", r"o=(32|33|48|49)")):
+            if re.search(pat, text):
+                bump("features", name)
+        for t in toks:
+            m = re.fullmatch(r"(?:\S*,)?o=(\d+)(?:,\S*)?", t)
+            if m and int(m.group(1)) & 1:
+                bump("features", "parenthetical")
+                break
     return d
 
 
 def distribution(pid, cases):
     if pid == "C19":
         return _c19_distribution(cases)
+    if pid == "C20":
+        return _c20_distribution(cases)
     d = {"ops": {}, "sizes": {}}
     for c in cases:
         ops = c.rsplit(" | ", 1)[-1].split(" ; ")
